@@ -5,6 +5,7 @@ the probe prints.
 -/
 import TlshVerif.Model.Params
 import TlshVerif.Spec.Tlsh
+import TlshVerif.Model.Aggregate
 
 namespace TlshVerif.Driver
 
@@ -155,7 +156,11 @@ def feed (P : Model.GenParams) (cfg : Model.Cfg) (v : Variant) (s : Model.GenSta
 
 def finals (P : Model.GenParams) (cfg : Model.Cfg) (v : Variant) (s : Model.GenState)
     (opts : List Nat) : List String :=
-  opts.map (fun o => genOutcomeStr (Model.genFinalize P cfg v s (optionsOf o)))
+  -- the model uses the aggregation back end of the probed build; the `_mm_undefined_si128` registers are
+  -- given two different contents depending on the option index (the result must not depend on them)
+  opts.map (fun o =>
+    let u : Model.M128 := if o % 2 = 0 then ⟨0, 0, 0, 0⟩ else ⟨0xffffffff, 0x80008000, 0x7fff7fff, 0x12345678⟩
+    genOutcomeStr (Model.genFinalizeCfg u u P cfg v s (optionsOf o)))
 
 def panicked (l : List String) : Bool := l.any (fun s => s == "panic" || s == "ub")
 
@@ -265,6 +270,22 @@ def evalCore (ctx : Ctx) (vS lenS tailS piecesS : String) : Option Result := do
   let _ := ctx
   pure { model := model, spec := spec }
 
+/-- `agg`: one aggregation back end on one bucket array. -/
+def evalAgg (ctx : Ctx) (nbS beS q1S q2S q3S bS : String) : Option Result := do
+  let nb ← nbS.toNat?
+  let q1 ← q1S.toNat?
+  let q2 ← q2S.toNat?
+  let q3 ← q3S.toNat?
+  let b := (unhexU32s bS).toList
+  let be : Model.AggBackend ← match beS with
+    | "naive" => some .naive | "sse2" => some .sse2 | "ssse3" => some .ssse3 | "avx2" => some .avx2
+    | "disp" => some ctx.cfg.aggBackend | _ => none
+  let (a, c, d) := (UInt32.ofNat q1, UInt32.ofNat q2, UInt32.ofNat q3)
+  let u : Model.M128 := ⟨0xdeadbeef, 0x00ff00ff, 0x80000000, 0x7fffffff⟩
+  let v : Variant := ⟨nb, 1⟩
+  pure { model := hexStr (Model.aggregateWith be u u b a c d)
+       , spec := some (hexStr (Spec.body v (b.map UInt32.toNat) q1 q2 q3)) }
+
 /-- Dispatch on the operation name. -/
 def eval (ctx : Ctx) (toks : List String) : Option Result :=
   match toks with
@@ -272,6 +293,7 @@ def eval (ctx : Ctx) (toks : List String) : Option Result :=
   | ["state", v, o, b, l, t, c, p] => evalState ctx v o b l t c p
   | ["hist", v, s] => evalHist ctx v s
   | ["core", v, l, t, p] => evalCore ctx v l t p
+  | ["agg", nb, be, q1, q2, q3, b] => evalAgg ctx nb be q1 q2 q3 b
   | _ => none
 
 end TlshVerif.Driver
